@@ -84,6 +84,10 @@ func childMain() int {
 			r2.Body.Close()
 		}
 		_ = os.WriteFile(filepath.Join(ctl, fmt.Sprintf("posted.%d", seq)), []byte(st), 0o644)
+		// the runtime has answered but does not come back for the next event (S5)
+		if _, err := os.Stat(filepath.Join(ctl, fmt.Sprintf("stall.%d", seq))); err == nil {
+			waitFile(filepath.Join(ctl, fmt.Sprintf("resume.%d", seq)), 120*time.Second)
+		}
 	}
 }
 
@@ -358,6 +362,36 @@ func main() {
 		}
 		if !r.alive() {
 			bad("S4 round %d: the emulator process exited: %v", round, r.exitErr)
+		}
+		rep.Cases++
+		r.stop()
+
+		// ---- S5: the runtime posts its response but does not ask for the next event before the timeout:
+		// the caller gets exactly one outcome (the timeout), then a fresh runtime serves the next invocation
+		r, err = startRIE(*bin, child, 1)
+		if err != nil {
+			break
+		}
+		_ = os.Remove(filepath.Join(r.ctl, "gateon"))
+		touch(r.file("stall", 0))
+		p = payload(rg, 64)
+		o = r.invoke(p)
+		ev0 = r.event(0, 5*time.Second)
+		if got := strings.TrimSpace(string(o.body)); got != "Task timed out after 1.00 seconds" {
+			bad("S5 round %d: the runtime answered and then stalled past the timeout; the caller got status %d and %d bytes %q (want exactly the timeout message: one outcome)",
+				round, o.status, len(o.body), string(o.body[:min(len(o.body), 120)]))
+		}
+		p2 = payload(rg, 222)
+		o = r.invoke(p2)
+		ev1 = r.event(1, 10*time.Second)
+		if o.status != 200 || sha(o.body) != sha(p2) {
+			bad("S5 round %d: invocation after that timeout got status %d body %s (posted %s)", round, o.status, sha(o.body), sha(p2))
+		}
+		if ev0 != nil && ev1 != nil && ev0["pid"] == ev1["pid"] {
+			bad("S5 round %d: the invocation after the timeout was served by the same runtime process %s", round, ev1["pid"])
+		}
+		if !r.alive() {
+			bad("S5 round %d: the emulator process exited: %v", round, r.exitErr)
 		}
 		rep.Cases++
 		r.stop()
